@@ -33,6 +33,28 @@ Theorem C08_false_for_off_target_prereq_error : forall f k,
 Proof. exact is_experiment_other_stages. Qed.
 Print Assumptions C08_false_for_off_target_prereq_error.
 
+(* the first sentence of the property for a whole flag evaluation (any nesting level): the reason says in-experiment
+   exactly when targeting is on, the prerequisites are met, no target matches, and the stage that then decides -- the
+   first rule all of whose clauses match, or the fallthrough when none does -- serves a rollout whose own outcome is
+   in-experiment (C08_in_experiment_iff says when that is) with a variation the flag has *)
+From LD Require Import Attribution.
+Theorem C08_whole_evaluation_attribution : forall re_ok re_match o E P c n chain f d ok,
+  p_eval re_ok re_match o E P c (S n) chain f = Done (d, ok) ->
+  (rs_inexp (d_reason d) = true <->
+   f_on f = true /\ prereqs_of re_ok re_match o E P c n chain f = Done POk /\ any_target_match c f = None /\
+   exists vr k i v, deciding_stage re_ok re_match o E P c f vr k /\
+     vr_result o c vr (f_key f) (f_salt f) = Done (Ok (i, true)) /\ znth_opt (f_vars f) i = Some v /\
+     d = mkdetail v (Some i) (mkreason k true None)).
+Proof. exact in_experiment_whole_evaluation. Qed.
+Print Assumptions C08_whole_evaluation_attribution.
+
+Theorem C08_whole_evaluation_nonvacuous :
+  p_eval (fun _ => false) (fun _ _ => false) (mkopts false false false) (mkenv [] []) None
+         (CSingle (mksingle (s "user") (s "a") None false None [])) 1 [] exp_flag
+  = Done (mkdetail (JBool true) (Some 1) (mkreason RFallthrough true None), true).
+Proof. exact attribution_nonvacuous. Qed.
+Print Assumptions C08_whole_evaluation_nonvacuous.
+
 (* ---- the defect found in the unchanged repository, as a kernel-checked refutation of the original code ---- *)
 From LD Require Import Legacy.
 Theorem C08_legacy_refuted :
